@@ -44,7 +44,7 @@ def run(chk, build):
     # X-names: prepare_label / underscore / camelize on single keys
     r = emitprops.gen.Gen(chk.seed * 7 + 11).r
     terms, meta = [], []
-    for i in range(1500 if chk.tier == "quick" else 60000):
+    for i in range(1500 if chk.tier == "quick" else 20000):
         s = names.random_key(r)
         cu, snake = r.random() < 0.5, r.random() < 0.6
         t, lab = names.label_case(s, cu, snake)
@@ -56,7 +56,7 @@ def run(chk, build):
     from json_to_models.registry import ModelRegistry
     from .. import emitcase, gen as genmod, impl
     gterms, gmeta = [], []
-    for i in range(150 if chk.tier == "quick" else 5000):
+    for i in range(150 if chk.tier == "quick" else 2000):
         keys = [names.random_key(r) for _ in range(6)] if r.random() < 0.4 else None
         g = MetadataGenerator(impl.make_registry())
         rootnames = r.sample(["Root", "Item", "Items", "Value", "User", "A", "Order", "Child", "Name"], r.choice([1, 1, 2, 3]))
@@ -72,24 +72,26 @@ def run(chk, build):
                     # a further root explicitly named like a de-duplicated model of a first run: <name>_<index> (D33)
                     reg0 = ModelRegistry(*impl.make_cmp(spec))
                     g0 = MetadataGenerator(impl.make_registry())
-                    for rn, s in zip(rootnames, ss):
-                        reg0.process_meta_data(g0.generate(*copy.deepcopy(s)), rn)
-                    reg0.merge_models(g0)
+                    with common.time_limit(20):
+                        for rn, s in zip(rootnames, ss):
+                            reg0.process_meta_data(g0.generate(*copy.deepcopy(s)), rn)
+                        reg0.merge_models(g0)
                     reg0.generate_names()
                     cands = [m.name for m in reg0.models if m.is_name_generated and m.name and m.name.endswith("_" + m.index)]
                     if cands:
                         rootnames = rootnames + [r.choice(cands)]
                         ss.append(genmod.Gen(r.randrange(10 ** 9), keys=keys).samples(depth=2))
-            for rn, s in zip(rootnames, ss):
-                reg.process_meta_data(g.generate(*copy.deepcopy(s)), rn)
-            reg.merge_models(g)
+            with common.time_limit(20):
+                for rn, s in zip(rootnames, ss):
+                    reg.process_meta_data(g.generate(*copy.deepcopy(s)), rn)
+                reg.merge_models(g)
             gterms.append(emitcase.gennames_case(reg))
             gmeta.append({"roots": [[n, x] for n, x in zip(rootnames, ss)]})
             chk.count(key=("gennames", repr(rootnames), repr(ss)))
             nm = [m.name for m in reg.models]
             if len(set(nm)) != len(nm):
                 chk.fail("oracle", gmeta[-1], f"two models share the class name {[n for n in nm if nm.count(n) > 1][0]!r} after generate_names")
-        except IndexError:
+        except (IndexError, TimeoutError):
             continue
     gdis = []
     base.run_view(chk, "Vgennames", "X-names(registry)", gterms, gmeta, gdis, shard=50)
